@@ -549,6 +549,8 @@ func (e *Env) SaveReplay(prop, caseName string, files map[string]string, notes m
 	dir := filepath.Join(e.Verif, "replays", prop, caseName)
 	os.RemoveAll(dir)
 	os.MkdirAll(dir, 0o755)
+	// keep the bundles out of the framework's own package tree
+	os.WriteFile(filepath.Join(e.Verif, "replays", "go.mod"), []byte("module replays\n\ngo 1.21\n"), 0o644)
 	for rel, c := range files {
 		path := filepath.Join(dir, "module", rel)
 		os.MkdirAll(filepath.Dir(path), 0o755)
